@@ -1,2 +1,13 @@
-"""see checks/bls_proto.py"""
+"""C04 -- see checks/bls_proto.py; plus the decoder contracts "not the canonical encoding => False" consumes (owned by C11)."""
+from symx.harness import obligation
 from . import bls_proto  # noqa: F401
+from . import c11 as _c11
+
+# the protocol obligations decide the verifiers over the ideal codec (VALID / DK / DT); these tie the real decoders to it:
+# a string is accepted only if it is THE canonical encoding of a curve point, anything else raises ValueError (turned into False)
+obligation("C04", "codec_contract_decompress_G1",
+           bound="every 384-bit word (and unbounded integers for the length contract): accepted only in canonical form, otherwise ValueError (the C11 obligation)")(_c11.decompress_g1_all_words)
+obligation("C04", "codec_contract_decompress_G2", timeout=900,
+           bound="every pair of 384-bit words: accepted only in canonical form, otherwise ValueError (the C11 obligation)")(_c11.decompress_g2_all_words)
+obligation("C04", "codec_contract_byte_decoders",
+           bound="every 48- / 96-byte string: the byte helpers hand exactly the big-endian words to the word decoders and propagate their ValueError (the C11 obligation)")(_c11.byte_decoders)
